@@ -456,41 +456,52 @@ static void op_expand(void) {
 }
 
 /* ------------------------------------------------------------------ heaps */
+static void heap_new_op(void) {
+  ret_t r; memset(&r, 0, sizeof(r));
+  int i; for (i = 0; i < MAXHEAPS; i++) if (!hps[i].alive) break;
+  if (i >= MAXHEAPS) return;
+  log_call_begin("heap_new", 0, 0, 0, 0, 0, 0, "ok", 0, 0); log_obs(-1, -1, 0); log_call_end();
+  mi_heap_t* h = mi_heap_new();
+  r.null = (h == NULL);
+  if (h) { hps[i].hp = h; hps[i].id = next_heap_id++; hps[i].alive = 1; hps[i].arena = 0; hps[i].descid = next_id++;
+           r.h = hps[i].id; r.id = hps[i].descid; r.a = h; r.us = mi_usable_size(h); }
+  log_ret_begin("heap_new", &r); log_obs(-1, -1, 1); log_ret_end();
+}
+static void heap_delete_op(int i) {     /* blocks migrate to the backing heap */
+  ret_t r; memset(&r, 0, sizeof(r));
+  log_call_begin("heap_delete", hps[i].id, 0, 0, 0, 0, 0, "ok", 0, 0); log_obs(-1, -1, 2); log_call_end();
+  mi_heap_delete(hps[i].hp);
+  for (int s = 0; s < MAXSLOTS; s++) if (slots[s].p && slots[s].heap == hps[i].id) slots[s].heap = hps[0].id;
+  if (dflt_idx == i) dflt_idx = 0;
+  hps[i].alive = 0;
+  log_ret_begin("heap_delete", &r); log_obs(-1, -1, 4); log_ret_end();
+}
+static void heap_destroy_op(int i) {    /* exactly its own blocks die */
+  ret_t r; memset(&r, 0, sizeof(r));
+  log_call_begin("heap_destroy", hps[i].id, 0, 0, 0, 0, 0, "ok", 0, 0); log_obs(-1, -1, 2); log_call_end();
+  for (int s = 0; s < MAXSLOTS; s++) if (slots[s].p && slots[s].heap == hps[i].id) clear_block(s);
+  mi_heap_destroy(hps[i].hp);
+  if (dflt_idx == i) dflt_idx = 0;
+  hps[i].alive = 0;
+  log_ret_begin("heap_destroy", &r); log_obs(-1, -1, 6); log_ret_end();
+}
+static void heap_set_default_op(int i) {
+  ret_t r; memset(&r, 0, sizeof(r));
+  log_call_begin("heap_set_default", hps[i].id, 0, 0, 0, 0, 0, "ok", 0, 0); log_obs(-1, -1, 0); log_call_end();
+  mi_heap_t* oldh = mi_heap_set_default(hps[i].hp);
+  r.h = heap_id_of(oldh); dflt_idx = i;
+  log_ret_begin("heap_set_default", &r); log_obs(-1, -1, 0); log_ret_end();
+}
 static void op_heap(void) {
   ret_t r; memset(&r, 0, sizeof(r));
   int k = (int)vf_randn(10);
   int nalive = 0; for (int i = 0; i < MAXHEAPS; i++) nalive += hps[i].alive;
-  if (k < 3 && nalive < MAXHEAPS) {            /* heap_new */
-    int i; for (i = 0; i < MAXHEAPS; i++) if (!hps[i].alive) break;
-    log_call_begin("heap_new", 0, 0, 0, 0, 0, 0, "ok", 0, 0); log_obs(-1, -1, 0); log_call_end();
-    mi_heap_t* h = mi_heap_new();
-    r.null = (h == NULL);
-    if (h) { hps[i].hp = h; hps[i].id = next_heap_id++; hps[i].alive = 1; hps[i].arena = 0; hps[i].descid = next_id++;
-             r.h = hps[i].id; r.id = hps[i].descid; r.a = h; r.us = mi_usable_size(h); }
-    log_ret_begin("heap_new", &r); log_obs(-1, -1, 1); log_ret_end();
-    return;
-  }
+  if (k < 3 && nalive < MAXHEAPS) { heap_new_op(); return; }
   int i = pick_heap_idx();
-  if (k < 5 && i != 0) {                        /* heap_delete: blocks migrate to the backing heap */
-    log_call_begin("heap_delete", hps[i].id, 0, 0, 0, 0, 0, "ok", 0, 0); log_obs(-1, -1, 2); log_call_end();
-    mi_heap_delete(hps[i].hp);
-    for (int s = 0; s < MAXSLOTS; s++) if (slots[s].p && slots[s].heap == hps[i].id) slots[s].heap = hps[0].id;
-    if (dflt_idx == i) dflt_idx = 0;
-    hps[i].alive = 0;
-    log_ret_begin("heap_delete", &r); log_obs(-1, -1, 4); log_ret_end();
-  } else if (k < 7 && i != 0) {                 /* heap_destroy: exactly its own blocks die */
-    log_call_begin("heap_destroy", hps[i].id, 0, 0, 0, 0, 0, "ok", 0, 0); log_obs(-1, -1, 2); log_call_end();
-    for (int s = 0; s < MAXSLOTS; s++) if (slots[s].p && slots[s].heap == hps[i].id) clear_block(s);
-    mi_heap_destroy(hps[i].hp);
-    if (dflt_idx == i) dflt_idx = 0;
-    hps[i].alive = 0;
-    log_ret_begin("heap_destroy", &r); log_obs(-1, -1, 6); log_ret_end();
-  } else if (k < 8) {                           /* set_default */
-    log_call_begin("heap_set_default", hps[i].id, 0, 0, 0, 0, 0, "ok", 0, 0); log_obs(-1, -1, 0); log_call_end();
-    mi_heap_t* oldh = mi_heap_set_default(hps[i].hp);
-    r.h = heap_id_of(oldh); dflt_idx = i;
-    log_ret_begin("heap_set_default", &r); log_obs(-1, -1, 0); log_ret_end();
-  } else if (k < 9) {
+  if (k < 5 && i != 0) heap_delete_op(i);
+  else if (k < 7 && i != 0) heap_destroy_op(i);
+  else if (k < 8) heap_set_default_op(i);
+  else if (k < 9) {
     log_call_begin("heap_get_default", 0, 0, 0, 0, 0, 0, "ok", 0, 0); log_obs(-1, -1, 0); log_call_end();
     r.h = heap_id_of(mi_heap_get_default());
     log_ret_begin("heap_get_default", &r); log_obs(-1, -1, 0); log_ret_end();
@@ -564,11 +575,64 @@ static void op_checkall(void) {
   vf_logf("]}"); vf_log_line_end();
 }
 
+/* ------------------------------------------------------------------ replay of a TLC-generated program (MiApiMC behaviour)
+   lines: "<op> <h> <id> <n>" with abstract heap ids (0 = default, 1 = backing, 2.. = created), abstract block ids in order
+   of creation (allocations, re-allocations and heap_new each consume one) and abstract sizes 8/16/24 mapped to a size table */
+static int abs2slot[4096];
+static int slot_of_last(void) { for (int i = 0; i < MAXSLOTS; i++) if (slots[i].p && slots[i].id == next_id - 1) return i; return -1; }
+static int find_alloc_op(const char* name) { for (int i = 0; i < A_COUNT; i++) if (!strcmp(aops[i].name, name)) return i; return -1; }
+static int find_realloc_op(const char* name) { for (int i = 0; i < R_COUNT; i++) if (!strcmp(rops[i].name, name)) return i; return -1; }
+static void run_program(const char* path) {
+  static const size_t tables[][3] = { {8, 16, 24}, {1, 100, 1000}, {16, 1024, 8192}, {8192, 70000, 140000}, {64, 65537, 2200000},
+                                      {511, 4096, 40000}, {1024, 131072, 1048576}, {48, 17000000, 200} };
+  const size_t* tab = tables[vf_randn(sizeof(tables) / sizeof(tables[0]))];
+  FILE* f = fopen(path, "r"); if (!f) { perror("prog"); exit(3); }
+  char op[64]; int h, id; long n; int absid = 1;
+  memset(abs2slot, -1, sizeof(abs2slot));
+  while (fscanf(f, "%63s %d %d %ld", op, &h, &id, &n) == 4) {
+    size_t rn = (n >= 8 && n <= 24 ? tab[n / 8 - 1] : (size_t)n);
+    if (vf_randn(4) == 0 && rn > 16) rn += vf_randn(9);
+    int hidx = (h <= 0 ? 0 : heap_idx_of_id(h));
+    int ai, ri;
+    if ((ai = find_alloc_op(op)) >= 0) {
+      int before = next_id;
+      if (h > 0 && hidx < 0) { absid++; continue; }
+      op_alloc_ex(ai, rn, 0, 0, hidx, (int)vf_randn(2));
+      if (next_id != before && absid < 4096) abs2slot[absid] = slot_of_last();
+      absid++;
+    } else if ((ri = find_realloc_op(op)) >= 0) {
+      int s = (id > 0 && id < 4096 ? abs2slot[id] : -1);
+      int before = next_id;
+      if (s >= 0 && slots[s].p) { op_realloc_ex(ri, s, rn, hidx, (int)vf_randn(2)); abs2slot[id] = -1; if (next_id != before && absid < 4096) abs2slot[absid] = slot_of_last(); }
+      absid++;
+    } else if (!strcmp(op, "free")) {
+      int s = (id > 0 && id < 4096 ? abs2slot[id] : -1);
+      if (s >= 0 && slots[s].p) { op_free_slot(s, (int)vf_randn(FR_COUNT)); abs2slot[id] = -1; }
+    } else if (!strcmp(op, "expand")) {
+      int s = (id > 0 && id < 4096 ? abs2slot[id] : -1);
+      if (s >= 0 && slots[s].p) {
+        blk_t* b = &slots[s]; size_t en = (n == 8 ? b->req : n == 16 ? b->us : b->us + 1);
+        log_call_begin("expand", 0, b->id, (long)en, 0, 0, 0, "ok", 0, 0); log_obs(s, -1, 0); log_call_end();
+        void* q = mi_expand(b->p, en);
+        ret_t r; memset(&r, 0, sizeof(r)); r.null = (q == NULL); r.a = q; r.us = (q ? mi_usable_size(q) : 0);
+        log_ret_begin("expand", &r); log_obs(s, -1, 0); log_ret_end();
+      }
+    } else if (!strcmp(op, "heap_new")) { heap_new_op(); absid++; }
+    else if (!strcmp(op, "heap_delete")) { if (hidx > 0) { for (int i = 0; i < 4096; i++) { } heap_delete_op(hidx); } }
+    else if (!strcmp(op, "heap_destroy")) { if (hidx > 0) { int hid = hps[hidx].id; for (int i = 0; i < 4096; i++) if (abs2slot[i] >= 0 && slots[abs2slot[i]].p && slots[abs2slot[i]].heap == hid) abs2slot[i] = -1; heap_destroy_op(hidx); } }
+    else if (!strcmp(op, "heap_set_default")) { if (hidx >= 0) heap_set_default_op(hidx); }
+    else if (!strcmp(op, "collect")) { op_collect(); }
+    if (vf_randn(6) == 0) op_write();
+    if (vf_randn(10) == 0) op_visit(pick_heap_idx(), 0);
+  }
+  fclose(f);
+}
+
 /* ------------------------------------------------------------------ main loop */
 static void usage(void) { fprintf(stderr, "usage: drv_api --out F [--seed S] [--ops N] [--maxlive L] [--profile P]\n"); exit(2); }
 
 int main(int argc, char** argv) {
-  const char* out = NULL; const char* profile = "c01"; uint64_t seed = 1; long ops = 2000;
+  const char* out = NULL; const char* profile = "c01"; const char* progpath = NULL; uint64_t seed = 1; long ops = 2000;
   for (int i = 1; i < argc; i++) {
     if (!strcmp(argv[i], "--out") && i + 1 < argc) out = argv[++i];
     else if (!strcmp(argv[i], "--seed") && i + 1 < argc) seed = strtoull(argv[++i], NULL, 10);
@@ -576,6 +640,7 @@ int main(int argc, char** argv) {
     else if (!strcmp(argv[i], "--maxlive") && i + 1 < argc) maxlive = atoi(argv[++i]);
     else if (!strcmp(argv[i], "--maxsize") && i + 1 < argc) max_size = (size_t)atol(argv[++i]);
     else if (!strcmp(argv[i], "--profile") && i + 1 < argc) profile = argv[++i];
+    else if (!strcmp(argv[i], "--prog") && i + 1 < argc) progpath = argv[++i];
     else usage();
   }
   if (!out) usage();
@@ -598,6 +663,7 @@ int main(int argc, char** argv) {
   vf_logf("{\"e\":\"cfg\",\"build\":\"%s\",\"padding\":%s,\"seed\":%llu,\"profile\":\"%s\"}", VF_CFG, padding ? "true" : "false", (unsigned long long)seed, profile);
   vf_log_line_end();
 
+  if (progpath) { run_program(progpath); ops = 0; }
   int total = w_alloc + w_free + w_realloc + w_write + w_query + w_heap + w_visit + w_collect + w_expand + w_chain;
   for (nops = 0; nops < ops; nops++) {
     int r = (int)vf_randn((uint64_t)total);
